@@ -84,7 +84,7 @@ def check_rank(ctx):
         elif it in ("enumerate(%s)" % rk,) and isinstance(L.target, ast.Tuple):
             i, nd = [norm_src(e) for e in L.target.elts]
             okl = lines == ["%s.add_rank(%s + 1)" % (nd, i)]
-        elif it == "enumerate(%s, 1)" % rk and isinstance(L.target, ast.Tuple):
+        elif it in ("enumerate(%s, 1)" % rk, "enumerate(%s, start=1)" % rk) and isinstance(L.target, ast.Tuple):
             i, nd = [norm_src(e) for e in L.target.elts]
             okl = lines == ["%s.add_rank(%s)" % (nd, i)]
     ctx.ob("R13-RANK", okl, c.file, q, "rank = position + 1 in that order: a permutation of 1..|layer|, non-increasing in the key",
@@ -149,7 +149,15 @@ def check_weights(ctx):
         lines = [s for s in L.body]
         rk = [s for s in lines if norm_src(s) == "self.rank(node_list[%s])" % h]
         inner = [s for s in lines if isinstance(s, ast.For)]
-        if len(rk) == 1 and len(inner) == 1 and L.body.index(rk[0]) < L.body.index(inner[0]) and isinstance(inner[0].target, ast.Name):
+        cellvar = None
+        if len(rk) == 1 and len(inner) == 1 and isinstance(inner[0].target, ast.Tuple) and len(inner[0].target.elts) == 2 and \
+                norm_src(inner[0].iter) == "enumerate(node_list[%s])" % h:
+            # for l, cell in enumerate(node_list[h]): cell is node_list[h][l]
+            cellvar = norm_src(inner[0].target.elts[1])
+            inner[0] = ast.For(target=inner[0].target.elts[0], iter=ast.parse("range(len(node_list[%s]))" % h, mode="eval").body,
+                               body=inner[0].body, orelse=[])
+            ast.fix_missing_locations(inner[0])
+        if len(rk) == 1 and len(inner) == 1 and isinstance(inner[0].target, ast.Name):
             l = inner[0].target.id
             src = [norm_src(s) for s in inner[0].body]
             want_idx = "index.append((%s, %s))" % (h, l)
@@ -162,7 +170,7 @@ def check_weights(ctx):
 
                 class Sub(ast.NodeTransformer):
                     def visit_Subscript(self, n):
-                        if norm_src(n) == "node_list[%s][%s].get_rank()[-1]" % (h, l):
+                        if norm_src(n) in ("node_list[%s][%s].get_rank()[-1]" % (h, l), "%s.get_rank()[-1]" % cellvar):
                             return ast.Name(id="RANK", ctx=ast.Load())
                         return self.generic_visit(n)
                 got = T.tr(Sub().visit(ast.parse(norm_src(e), mode="eval").body))
@@ -181,8 +189,8 @@ def check_weights(ctx):
         a0 = norm_src(call.args[0]) if call.args else ""
         okd = kw == {"p": "self.prob"} and a0 in ("[i for i in range(len(index))]", "range(len(index))", "len(index)", "list(range(len(index)))")
         sv = norm_src(draw[0].targets[0])
-        follow = [norm_src(s) for s in body[body.index(draw[0]) + 1: body.index(draw[0]) + 2]]
-        okd = okd and follow == ["idx = index[%s]" % sv]
+        follow = [s for s in body[body.index(draw[0]) + 1: body.index(draw[0]) + 2]]
+        okd = okd and len(follow) == 1 and isinstance(follow[0], ast.Assign) and norm_src(follow[0].value) == "index[%s]" % sv
     ctx.ob("R13-WEIGHT", okd, c.file, q, "cell index drawn with np.random.choice(.., p=weights)", norm_src(draw[0]) if draw else "no draw", pull.lineno)
 
 
@@ -207,11 +215,12 @@ def check_point(ctx):
     if len(inits) == 1:
         at = inits[0][0]
         ds, entry = fc.reaching(cur, at)
-        okd = not entry and len(ds) == 1 and ds[0][1][0] == "assign" and norm_src(ds[0][1][1]) == "node_list[idx[0]][idx[1]]"
-        ctx.ob("R13-POINT", okd, c.file, q, "the chain starts at the drawn cell node_list[idx[0]][idx[1]] itself",
+        okd = not entry and len(ds) == 1 and ds[0][1][0] == "assign" and drawn_cell_expr(fc, ds[0][1][1], ds[0][0])
+        ctx.ob("R13-POINT", okd, c.file, q, "the chain starts at the drawn cell node_list[h][l] itself, (h, l) = index[sample]",
                "%s" % [norm_src(r[1]) if r[0] == "assign" else r[0] for n, r in ds], at.line)
         hd, he = fc.reaching("h", at)
-        okh = not he and len(hd) == 1 and hd[0][1][0] == "assign" and norm_src(hd[0][1][1]) == "idx[0]"
+        okh = not he and len(hd) == 1 and (hd[0][1][0] == "assign" and norm_src(hd[0][1][1]) == "idx[0]" or
+                                           hd[0][1][0] == "unpack" and norm_src(hd[0][1][1]).startswith("index[") and norm_src(hd[0][1][2].elts[0]) == "h")
         ctx.ob("R13-POINT", okh, c.file, q, "the depth counter starts at the drawn cell's depth", "%s" % [norm_src(r[1]) if r[0] == "assign" else r[0] for n, r in hd],
                at.line)
     wl = [w for w in ast.walk(pull) if isinstance(w, ast.While)]
@@ -225,6 +234,25 @@ def check_point(ctx):
     ctx.ob("R13-POINT", okw, c.file, q, "descent to the depth cap: one random child per level while h < h_max",
            "recognised" if okw else "descent loop not recognised", pull.lineno)
     # sample_uniform lies in the cell: C01 R01-INSIDE; descendants lie in the drawn cell: C02
+
+
+def drawn_cell_expr(fc, e, at):
+    """e is node_list[A][B] with (A, B) the pair drawn from `index`: idx = index[sample] and A, B = idx[0], idx[1],
+    or A, B unpacked directly from index[sample]."""
+    if not (isinstance(e, ast.Subscript) and isinstance(e.value, ast.Subscript) and norm_src(e.value.value) == "node_list"):
+        return False
+    A, B = e.value.slice, e.slice
+    sa, sb = norm_src(A), norm_src(B)
+    if isinstance(A, ast.Subscript) and isinstance(B, ast.Subscript) and norm_src(A.value) == norm_src(B.value) and \
+            (norm_src(A.slice), norm_src(B.slice)) == ("0", "1") and isinstance(A.value, ast.Name):
+        ds, entry = fc.reaching(A.value.id, at)
+        return not entry and len(ds) == 1 and ds[0][1][0] == "assign" and norm_src(ds[0][1][1]).startswith("index[")
+    if isinstance(A, ast.Name) and isinstance(B, ast.Name):
+        da, ea = fc.reaching(sa, at)
+        db, eb = fc.reaching(sb, at)
+        return (not ea and not eb and len(da) == 1 and len(db) == 1 and da[0][0] is db[0][0] and da[0][1][0] == "unpack" and
+                norm_src(da[0][1][1]).startswith("index[") and [norm_src(x) for x in da[0][1][2].elts] == [sa, sb])
+    return False
 
 
 def run(ctx):
